@@ -1514,6 +1514,9 @@ class Interp(Engine):
         self.used_uninterp.add(fn.name)
         if bound is not None:
             params = [p for p in bound]
+            rc = self.func_ret.get(fn.name)
+            if rc:
+                return self.app(fn.name, [bound[p] for p in params], 'obj', cls=rc)
             return self.app(fn.name, [bound[p] for p in params])
         return self.app(fn.name, list(args) + ([DictV(kwargs)] if kwargs else []))
 
@@ -1613,6 +1616,7 @@ class Interp(Engine):
         raise Undecided(f'method {name!r} of {selfv!r}')
 
     method_ret = {}
+    func_ret = {}
 
     def _bases(self, cls):
         self.class_index()
